@@ -107,6 +107,14 @@ func buildCall(gen string, r *schema.Resource, m *schema.Method, pos string, val
 		fmt.Sscanf(pos, "key%d", &i)
 		c.Keys[i] = val
 	}
+	if m.Kind == "REST_METHOD" {
+		if pt := ParamsType(m, gen); len(pt.Fields) > 0 {
+			c.Params = schema.Base(pt)
+			if strings.HasPrefix(pos, "param:") {
+				c.Params = c.Params.With(strings.TrimPrefix(pos, "param:"), val)
+			}
+		}
+	}
 	switch {
 	case m.Kind == "FINDER":
 		pt := ParamsType(m, gen)
@@ -243,6 +251,11 @@ func positions(gen string, r *schema.Resource, m *schema.Method, full bool) []ar
 		ps = append(ps, argPos{fmt.Sprintf("key%d", i), keyAlphabet(kt, red)})
 	}
 	ownKey := ownKeyType(r)
+	if m.Kind == "REST_METHOD" {
+		for _, f := range ParamsType(m, gen).Fields {
+			ps = append(ps, argPos{"param:" + f.Name, schema.FieldAlphabet(f, true)})
+		}
+	}
 	switch {
 	case m.Kind != "REST_METHOD":
 		for _, f := range ParamsType(m, gen).Fields {
@@ -385,6 +398,15 @@ func (w *World) verify(gen string, c *Call, r *Reply, outs []reflect.Value, pani
 			if !found {
 				return "keys-altered", fmt.Sprintf("entry for key %s did not arrive%s", kv.K, w.wireSummary())
 			}
+		}
+	}
+	if c.M.Kind == "REST_METHOD" && c.Params != nil {
+		last := rc.args[len(rc.args)-1]
+		if last.Kind() == reflect.Ptr && last.IsNil() {
+			return "params-altered", fmt.Sprintf("the resource received nil query parameters, sent %s%s", c.Params, w.wireSummary())
+		}
+		if got := fromGo(last, c.Params.T); !schema.Equal(got, c.Params) {
+			return "params-altered", fmt.Sprintf("parameters arrived as %s, sent %s%s", got, c.Params, w.wireSummary())
 		}
 	}
 	// ---- results as seen by the caller
